@@ -244,7 +244,45 @@ def check_block_sources(run, db):
     return n
 
 
+class _Renamed:
+    """report the shared move rules of C12 under this property's rule name"""
+
+    def __init__(self, run, name):
+        self._run, self._name = run, name
+
+    def ok(self, rule, *a, **k):
+        return self._run.ok(self._name, *a, **k)
+
+    def violation(self, rule, inst, loc, detail, site=None, **k):
+        return self._run.violation(self._name, inst, loc, '[%s] %s' % (rule, detail), site=site, **k)
+
+    def __getattr__(self, n):
+        return getattr(self._run, n)
+
+
+BLOCK_OWNERS = ('memory_arena', 'detail::memory_arena_cache', 'detail::memory_block_stack', 'growing_block_allocator',
+                'fixed_block_allocator', 'static_block_allocator', 'virtual_block_allocator')
+
+
+def check_owner_moves(run, db):
+    """a block obtained upstream is returned exactly once also across move construction, move assignment and swap of the
+    objects that hold the block lists: every list (used, cached) and the block source travel together; the source of a move
+    keeps nothing; assignment releases what it overwrites (shared rules R-MOVE.1/.2/.4 of C12, restricted to block owners)"""
+    from rules import c12
+    rr = _Renamed(run, 'R-ARENA.move')
+    n = 0
+    for cls, ops in sorted(c12.classes_with_moves(db).items()):
+        if cls not in db.classes or cls_template(cls) not in BLOCK_OWNERS:
+            continue
+        n += 1
+        c12.check_coverage(rr, db, cls, ops)
+        c12.check_emptiness(rr, db, cls, ops)
+        c12.check_release_before_overwrite(rr, db, cls, ops)
+    return n
+
+
 def run(run):
+    run.rule('R-ARENA.move', 'move construction / assignment / swap of block owners transfer every block list together with the block source', floor=10)
     run.rule('R-ARENA.pop', 'popped blocks flow only into deallocate_block', floor=4)
     run.rule('R-ARENA.dtor', 'destructor drains cache then used stack', floor=4)
     run.rule('R-ARENA.alloc', 'cache first, upstream only when empty, push after, nothing written on failure', floor=4)
@@ -254,7 +292,7 @@ def run(run):
     run.explanation = ('"Exactly once" over histories is not counted; the structure is decided: each header sits on one intrusive stack, '
                        'pop results only go upstream, the arena asks upstream only with an empty cache, and the release order follows from the '
                        'block-order typestate (used: newest on top; cache: oldest on top; flipped before release).')
-    run.assumptions += ['release-before-overwrite for owners is C12 R-MOVE.4; LIFO checks of the LIFO-only sources are C16']
+    run.assumptions += ['release-before-overwrite for owners other than the block owners is C12 R-MOVE.4; LIFO checks of the LIFO-only sources are C16']
     for cfg in common.configs(run):
         db = build.load_db(cfg, log=run.log)
         if check_pop_sites(run, db) < 4:
@@ -265,3 +303,5 @@ def run(run):
             run.broke('memory_arena_cache members not found [%s]' % cfg)
         if check_block_sources(run, db) < 3:
             run.broke('block sources not found [%s]' % cfg)
+        if check_owner_moves(run, db) < 6:
+            run.broke('block owners with move operations not found [%s]' % cfg)
